@@ -247,6 +247,14 @@ def run_world(seed, build, trace=None, max_steps=100000, yield_prob=1.0,
     res = RunResult(seed=seed, status='ok', violations=[], error=None)
     state = {'done': False, 'err': None}
     cwd = os.getcwd()
+    # a run neither depends on the ambient environment of its caller nor
+    # leaves anything in it (TMPDIR is what the code under test looks at)
+    env0 = dict(os.environ)
+    os.environ.pop('TMPDIR', None)
+    if root:
+        os.makedirs('%s/tmp' % root, exist_ok=True)
+        os.environ['TMPDIR'] = '%s/tmp' % root
+    tmpdir0 = tempfile.tempdir
     try:
         install_cmgr()
         sim.data['sides_by_reg'] = dict()
@@ -289,6 +297,13 @@ def run_world(seed, build, trace=None, max_steps=100000, yield_prob=1.0,
         except BaseException:                                # noqa
             pass
         os.chdir(cwd)
+        for k in list(os.environ):
+            if k not in env0:
+                del os.environ[k]
+        for k, val in env0.items():
+            if os.environ.get(k) != val:
+                os.environ[k] = val
+        tempfile.tempdir = tmpdir0
         if root:
             shutil.rmtree(root, ignore_errors=True)
     res['steps']    = sim.steps
